@@ -108,7 +108,7 @@ def main():
     chk = Check("C08")
     chk.build()
     quick = chk.tier == "quick"
-    cases = codec.gen_schemas(chk.tier, chk.seed, want_random=200 if quick else 4000, k=2)
+    cases = codec.gen_schemas(chk.tier, chk.seed, want_random=200 if quick else 1200, k=2)
     if quick:
         cases = [c for i, c in enumerate(cases) if c[0] != "exhaustive" or i % 4 == 0]
     corp = []
